@@ -14,6 +14,8 @@ mod ops_exec;
 #[cfg(not(feature = "stateless"))]
 mod proto_exec;
 #[cfg(not(feature = "stateless"))]
+mod relay_exec;
+#[cfg(not(feature = "stateless"))]
 mod rln_exec;
 #[cfg(all(feature = "pmtree", not(feature = "stateless")))]
 mod storage_exec;
@@ -92,6 +94,14 @@ fn main() {
         #[cfg(not(feature = "stateless"))]
         "proto" => cmd_proto(&args),
         #[cfg(not(feature = "stateless"))]
+        "relay" => {
+            let scenario = read_ndjson(arg(&args, "--scenario").expect("--scenario"));
+            let mut it = Interner::new();
+            let mut out = Vec::new();
+            relay_exec::run(&scenario, &mut it, &mut out);
+            write_ndjson(arg(&args, "--out").expect("--out"), &out);
+        }
+        #[cfg(not(feature = "stateless"))]
         "ffi-child" => {
             let scenario = read_ndjson(arg(&args, "--scenario").expect("--scenario"));
             ffi_exec::run_child(&scenario, arg(&args, "--out").expect("--out"));
@@ -120,7 +130,7 @@ fn main() {
             let hist: Vec<serde_json::Value> = serde_json::from_str(&std::fs::read_to_string(arg(&args, "--hist").unwrap()).unwrap()).unwrap();
             let cfg: serde_json::Value = serde_json::from_str(arg(&args, "--cfg").unwrap()).unwrap();
             storage_exec::crash_child(arg(&args, "--d").unwrap().parse().unwrap(), &cfg, arg(&args, "--k").unwrap().parse().unwrap(), &hist,
-                                      arg(&args, "--log").unwrap());
+                                      arg(&args, "--log").unwrap(), arg(&args, "--abort-after").unwrap_or("0").parse().unwrap());
         }
         c => {
             eprintln!("unknown command {c}");
